@@ -34,7 +34,19 @@ rc, out = sh(demo_cmd.replace("/tmp/mut-%s-out" % pid, os.path.dirname(sd)) if "
 res["demo_fails_with_patch"] = rc != 0
 # run the check against the patched worktree (demo files removed first so they do not matter)
 sh("git clean -fdq -e target")
-rc2, out2 = sh(f"VERIF_REPO={wt} ./check {pid} --tier {tier}", cwd=ROOT, timeout=7200)
+seeds = [s for s in (sys.argv[sys.argv.index("--seeds") + 1].split(",") if "--seeds" in sys.argv else [os.environ.get("VERIF_SEED", "1")])]
+res["per_seed"] = {}
+rc2, out2 = None, ""
+for sd_ in seeds:
+    rc_i, out_i = sh(f"VERIF_SEED={sd_} VERIF_REPO={wt} ./check {pid} --tier {tier}", cwd=ROOT, timeout=7200)
+    lines_i = [l for l in out_i.splitlines() if l.startswith(("VIOLATION", "KNOWN-FINDING", "[" + pid))]
+    import re as _re2
+    m_ = _re2.search(r"disagreements (\d+), oracle violations (\d+)", out_i)
+    res["per_seed"][sd_] = {"rc": rc_i, "detected": rc_i == 1 and any(l.startswith("VIOLATION") for l in lines_i),
+                            "concrete": any(l.startswith("VIOLATION") and "no-failing-input-found" not in l for l in lines_i),
+                            "disagreements": int(m_.group(1)) if m_ else None, "oracle_violations": int(m_.group(2)) if m_ else None}
+    if rc2 is None:
+        rc2, out2 = rc_i, out_i
 res["check_rc"] = rc2
 res["check_lines"] = [l for l in out2.splitlines() if l.startswith(("VIOLATION", "KNOWN-FINDING", "[" + pid))]
 clean()
@@ -42,5 +54,5 @@ rc, out = sh(demo_cmd.replace("/tmp/mut-%s-out" % pid, os.path.dirname(sd)) if "
 res["demo_passes_without_patch"] = rc == 0
 if rc != 0: res["demo_tail"] = out[-1500:]
 clean()
-res["detected"] = rc2 == 1 and any(l.startswith("VIOLATION") for l in res["check_lines"])
+res["detected"] = all(v["detected"] for v in res["per_seed"].values())
 print(json.dumps(res, indent=1))
